@@ -264,12 +264,15 @@ def compile_many(srcs, flags):
     return objs
 
 
-def build_driver(name, srcs, sdk=False, variant="san", extra_flags=(), extra_srcs=(), libs=("-lpthread",)):
-    """compile harness sources (+ the SDK from the working tree when sdk=True) and link build/bin/<name>"""
-    flags = BASE_FLAGS + VARIANTS[variant] + list(extra_flags)
+def build_driver(name, srcs, sdk=False, variant="san", extra_flags=(), extra_srcs=(), libs=("-lpthread",),
+                 pre_flags=(), sdk_exclude=()):
+    """compile harness sources (+ the SDK from the working tree when sdk=True) and link build/bin/<name>.
+    pre_flags go in front of the repository's include paths (scratch copies made by tools/shimcopy.py);
+    sdk_exclude drops SDK sources whose path ends with one of the given suffixes (replaced by extra_srcs)."""
+    flags = list(pre_flags) + BASE_FLAGS + VARIANTS[variant] + list(extra_flags)
     all_srcs = [os.path.join(ROOT, s) if not os.path.isabs(s) else s for s in srcs] + list(extra_srcs)
     if sdk:
-        all_srcs += sdk_sources()
+        all_srcs += [s for s in sdk_sources() if not any(s.endswith(x) for x in sdk_exclude)]
     objs = compile_many(all_srcs, flags)
     h = hashlib.sha256((" ".join(objs) + " ".join(flags)).encode()).hexdigest()[:16]
     bindir = os.path.join(BUILD, "bin")
